@@ -18,11 +18,9 @@ import (
 	"github.com/pckhoi/meow"
 	apiutils "github.com/wrgl/wrgl/pkg/api/utils"
 	"github.com/wrgl/wrgl/pkg/conf"
-	"github.com/wrgl/wrgl/pkg/diff"
 	"github.com/wrgl/wrgl/pkg/doctor"
 	"github.com/wrgl/wrgl/pkg/encoding/packfile"
 	"github.com/wrgl/wrgl/pkg/ingest"
-	"github.com/wrgl/wrgl/pkg/merge"
 	"github.com/wrgl/wrgl/pkg/objects"
 	objmock "github.com/wrgl/wrgl/pkg/objects/mock"
 	"github.com/wrgl/wrgl/pkg/prune"
@@ -66,17 +64,18 @@ import (
 //     refs     ((r shape) ...) sorted, of the uninterrupted final state
 //     counts   (#commits #tables #tblidx #prof #blocks #blkidx) of the uninterrupted final state
 //
-// The operations are driven at the library layer with recording stores, copying the call sequences of
-// the CLI (line numbers of the current tree):
-//   commit          cmd/wrgl/commit_cmd.go:180-247  ref.GetHead; ingest.IngestTable; objects.SaveCommit; ref.CommitHead
-//   commitWithTable cmd/wrgl/commit_cmd.go:311-336
-//   DeleteHead      cmd/wrgl/commit_cmd.go:253      (commitTempBranch)
-//   merge           cmd/wrgl/merge_cmd.go:163-296 runMerge, :518-566 commitMergeResult, :568-600 createMergeCommit
-//   fetch           pkg/api/utils/object_receiver.go Receive (as UploadPackSession.receiveObjects does) and
-//                   cmd/wrgl/fetch/root.go:221-335 saveFetchedRefs (ref.SaveFetchRef per ref)
-//   prune           prune.Prune
-// Commit time = 1700000000+nonce seconds and message "c<nonce>" instead of time.Now(): a re-run with a
-// new nonce is a commit with a new time stamp, hence a new sum.
+// The REAL operations run on the recording / fault-injecting stores:
+//   commit          wrgl.VerifCommit          = cmd/wrgl commit()           (kind 0; CSV on the command's stdin)
+//   commitWithTable wrgl.VerifCommitWithTable = cmd/wrgl commitWithTable()  (kind 1)
+//   DeleteHead      ref.DeleteHead                                          (kind 2)
+//   merge           wrgl.VerifRunMerge        = cmd/wrgl runMerge()         (kinds 3 default ff, 4 ff=never, 5 ff)
+//   fetch           fetch.Fetch against harness/c09_server.go               (kind 8, c13_real.go)
+//   prune           prune.Prune                                             (kind 7)
+// Only kind 6 re-enacts a sequence: ObjectReceiver.Receive (real) over a packfile whose object ORDER
+// the generator chooses (incl. hostile orders no server sends), followed by the ref rule of
+// cmd/wrgl/fetch/root.go:221-335 saveFetchedRefs (ref.SaveFetchRef per ref).
+// Commits made by the real commit / merge carry time.Now(); the nonce travels in the message "c<nonce>".
+// Commits of remote histories are assembled by the harness with time 1700000000+nonce.
 
 func init() { props["C13"] = &Prop{Gen: genC13, Run: runC13} }
 
@@ -561,29 +560,25 @@ func (st *c13Stores) replay(ws []c13Write) {
 	}
 }
 
-// dump: a canonical text of the whole state (keys, values, refs)
-func (st *c13Stores) dump() string {
+// dump: a canonical text of the whole state (keys, values, refs). Commits made by the real
+// `commit` / `merge` carry time.Now(): they are identified by (table, parents, message nonce).
+func (st *c13Stores) dump(u *c13Universe) string {
 	m, _ := st.db.m.Filter(nil)
-	keys := make([]string, 0, len(m))
-	for k := range m {
-		keys = append(keys, k)
-	}
-	sort.Strings(keys)
-	var sb strings.Builder
-	for _, k := range keys {
-		arr := meow.Checksum(0, m[k])
-		fmt.Fprintf(&sb, "%x=%x\n", k, arr[:])
+	var lines []string
+	for k, v := range m {
+		if strings.HasPrefix(k, "com/") {
+			lines = append(lines, "com:"+u.absCommit([]byte(k[4:]), v).String())
+			continue
+		}
+		arr := meow.Checksum(0, v)
+		lines = append(lines, fmt.Sprintf("%x=%x", k, arr[:]))
 	}
 	refs, _ := st.rs.s.Filter(nil, nil)
-	names := make([]string, 0, len(refs))
-	for k := range refs {
-		names = append(names, k)
+	for k, v := range refs {
+		lines = append(lines, fmt.Sprintf("%s=%s", k, u.absCommit(v, nil)))
 	}
-	sort.Strings(names)
-	for _, k := range names {
-		fmt.Fprintf(&sb, "%s=%x\n", k, refs[k])
-	}
-	return sb.String()
+	sort.Strings(lines)
+	return strings.Join(lines, "\n")
 }
 
 // ---------------------------------------------------------------- the operations (library layer)
@@ -593,201 +588,7 @@ type c13Env struct {
 	workers int
 }
 
-// cmd/wrgl/commit_cmd.go commit()
-func (e *c13Env) commit(st *c13Stores, r int, tbl *xt.T, nonce int) error {
-	branch := fmt.Sprintf("b%d", r)
-	parent, _ := ref.GetHead(st.rs, branch)
-	csv := e.u.csv[c13TableKey(tbl)]
-	if csv == nil {
-		return fmt.Errorf("c13: no CSV for table %s", tbl)
-	}
-	sum, err := c13Ingest(st.db, csv, e.workers)
-	if err != nil {
-		return fmt.Errorf("error ingesting rows: %w", err)
-	}
-	return e.commitTail(st, branch, sum, parent, nonce)
-}
-
-func (e *c13Env) commitTail(st *c13Stores, branch string, table, parent []byte, nonce int) error {
-	var ps [][]byte
-	if parent != nil {
-		ps = [][]byte{parent}
-	}
-	com := c13CommitObj(table, ps, nonce)
-	buf := bytes.NewBuffer(nil)
-	if _, err := com.WriteTo(buf); err != nil {
-		return err
-	}
-	commitSum, err := objects.SaveCommit(st.db, buf.Bytes())
-	if err != nil {
-		return fmt.Errorf("error saving commit: %w", err)
-	}
-	return ref.CommitHead(st.rs, branch, commitSum, com, nil)
-}
-
-// cmd/wrgl/commit_cmd.go commitWithTable()
-func (e *c13Env) commitWithTable(st *c13Stores, r int, tbl *xt.T, nonce int) error {
-	branch := fmt.Sprintf("b%d", r)
-	parent, _ := ref.GetHead(st.rs, branch)
-	ts := e.u.tableSum[c13TableKey(tbl)]
-	if ts == nil {
-		return fmt.Errorf("c13: unknown table")
-	}
-	return e.commitTail(st, branch, ts, parent, nonce)
-}
-
-// cmd/wrgl/merge_cmd.go createMergeCommit()
-func (e *c13Env) createMergeCommit(st *c13Stores, branch string, table []byte, parents [][]byte, nonce int) error {
-	com := c13CommitObj(table, parents, nonce)
-	buf := bytes.NewBuffer(nil)
-	if _, err := com.WriteTo(buf); err != nil {
-		return err
-	}
-	commitSum, err := objects.SaveCommit(st.db, buf.Bytes())
-	if err != nil {
-		return err
-	}
-	return ref.CommitMerge(st.rs, branch, commitSum, com)
-}
-
 var errC13Conflict = errors.New("c13: merge has conflicts (generator bug)")
-
-// cmd/wrgl/merge_cmd.go runMerge(); ffNever = merge.fastForward "never"
-func (e *c13Env) merge(st *c13Stores, r int, others [][]byte, nonce int, ffNever bool) error {
-	branch := fmt.Sprintf("b%d", r)
-	name := "heads/" + branch
-	sum, err := ref.GetHead(st.rs, branch)
-	if err != nil {
-		return err
-	}
-	if _, err := objects.GetCommit(st.db, sum); err != nil {
-		return err
-	}
-	commits := [][]byte{sum}
-	for _, o := range others {
-		com, err := objects.GetCommit(st.db, o)
-		if err != nil {
-			return err
-		}
-		if !objects.TableExist(st.db, com.Table) {
-			return fmt.Errorf("table %x not found", com.Table)
-		}
-		commits = append(commits, o)
-	}
-	baseCommit, err := ref.SeekCommonAncestor(st.db, commits...)
-	if err != nil {
-		return err
-	}
-	nonAncestral := [][]byte{}
-	for _, s := range commits {
-		if !bytes.Equal(s, baseCommit) {
-			nonAncestral = append(nonAncestral, s)
-		}
-	}
-	if len(nonAncestral) == 0 {
-		return nil
-	} else if len(nonAncestral) == 1 {
-		if ffNever {
-			com, err := objects.GetCommit(st.db, nonAncestral[0])
-			if err != nil {
-				return err
-			}
-			return e.createMergeCommit(st, branch, com.Table, commits, nonce)
-		}
-		return ref.SaveRef(st.rs, name, nonAncestral[0], "V", "v@x.y", "merge", "fast-forward", nil)
-	}
-	commits = nonAncestral
-	getTable := func(comSum []byte) ([]byte, *objects.Table, error) {
-		com, err := objects.GetCommit(st.db, comSum)
-		if err != nil {
-			return nil, nil, err
-		}
-		t, err := objects.GetTable(st.db, com.Table)
-		if err != nil {
-			return nil, nil, err
-		}
-		return com.Table, t, nil
-	}
-	baseSum, baseT, err := getTable(baseCommit)
-	if err != nil {
-		return err
-	}
-	otherTs := make([]*objects.Table, len(commits))
-	otherSums := make([][]byte, len(commits))
-	for i, s := range commits {
-		otherSums[i], otherTs[i], err = getTable(s)
-		if err != nil {
-			return err
-		}
-	}
-	buf, err := diff.BlockBufferWithSingleStore(st.db, append([]*objects.Table{baseT}, otherTs...))
-	if err != nil {
-		return err
-	}
-	rowCollector, cleanup, err := merge.CreateRowCollector(st.db, baseT)
-	if err != nil {
-		return err
-	}
-	defer cleanup()
-	merger, err := merge.NewMerger(st.db, rowCollector, buf, 0, baseT, otherTs, baseSum, otherSums, c13Logger)
-	if err != nil {
-		return err
-	}
-	defer merger.Close()
-	// collectMergeConflicts
-	mch, err := merger.Start()
-	if err != nil {
-		return err
-	}
-	merges := []*merge.Merge{}
-	for m := range mch {
-		merges = append(merges, m)
-	}
-	if err = merger.Error(); err != nil {
-		return err
-	}
-	if len(merges) == 0 {
-		return fmt.Errorf("c13: merger produced no column diff")
-	}
-	cd := merges[0].ColDiff
-	if len(merges) > 1 {
-		return errC13Conflict
-	}
-	removedCols := map[int]struct{}{}
-	for _, layer := range cd.Removed {
-		for col := range layer {
-			removedCols[int(col)] = struct{}{}
-		}
-	}
-	// commitMergeResult
-	columns := merger.Columns(removedCols)
-	pk, err := slice.KeyIndices(columns, merger.PK())
-	if err != nil {
-		return err
-	}
-	ctx, cancel := context.WithCancel(context.Background())
-	defer cancel()
-	blocks, err := merger.SortedBlocks(ctx, removedCols)
-	if err != nil {
-		return err
-	}
-	s, err := sorter.NewSorter()
-	if err != nil {
-		return err
-	}
-	tsum, err := ingest.IngestTableFromBlocks(st.db, s, columns, pk, blocks, c13Logger, ingest.WithNumWorkers(e.workers))
-	if err != nil {
-		return err
-	}
-	tbl, err := objects.GetTable(st.db, tsum)
-	if err != nil {
-		return err
-	}
-	if err = ingest.ProfileTable(st.db, tsum, tbl); err != nil {
-		return err
-	}
-	return e.createMergeCommit(st, branch, tsum, commits, nonce)
-}
 
 func (e *c13Env) packfile(objs *xt.T) ([]byte, error) {
 	buf := bytes.NewBuffer(nil)
@@ -893,9 +694,9 @@ func (e *c13Env) fetch(st *c13Stores, objs, upd *xt.T) error {
 func (e *c13Env) runOp(st *c13Stores, op *xt.T) (err error) {
 	switch op.Kids[0].N {
 	case 0:
-		return e.commit(st, int(op.Kids[1].N), op.Kids[2], int(op.Kids[3].N))
+		return e.realCommit(st, int(op.Kids[1].N), op.Kids[2], int(op.Kids[3].N))
 	case 1:
-		return e.commitWithTable(st, int(op.Kids[1].N), op.Kids[2], int(op.Kids[3].N))
+		return e.realCommitWithTable(st, int(op.Kids[1].N), op.Kids[2], int(op.Kids[3].N))
 	case 2:
 		return ref.DeleteHead(st.rs, fmt.Sprintf("b%d", op.Kids[1].N))
 	case 3:
@@ -903,11 +704,11 @@ func (e *c13Env) runOp(st *c13Stores, op *xt.T) (err error) {
 		for _, c := range op.Kids[2].Kids {
 			others = append(others, e.u.sumOfCid(c))
 		}
-		return e.merge(st, int(op.Kids[1].N), others, int(op.Kids[4].N), false)
+		return e.realMerge(st, int(op.Kids[1].N), others, int(op.Kids[4].N), conf.FF_Default)
 	case 4:
-		return e.merge(st, int(op.Kids[1].N), [][]byte{e.u.sumOfCid(op.Kids[2])}, int(op.Kids[3].N), true)
+		return e.realMerge(st, int(op.Kids[1].N), [][]byte{e.u.sumOfCid(op.Kids[2])}, int(op.Kids[3].N), conf.FF_Never)
 	case 5:
-		return e.merge(st, int(op.Kids[1].N), [][]byte{e.u.sumOfCid(op.Kids[2])}, 0, false)
+		return e.realMerge(st, int(op.Kids[1].N), [][]byte{e.u.sumOfCid(op.Kids[2])}, 0, conf.FF_Default)
 	case 6:
 		return e.fetch(st, op.Kids[1], op.Kids[2])
 	case 8:
@@ -1307,7 +1108,7 @@ func runC13(ctx *Ctx, c *xt.T) (*xt.T, Verdict) {
 		if !jn.inv {
 			fail(jn.class, "%s after a crash behind write %d of %d (%s): %s", c13OpName(kind), n, L, c13TraceAt(trace, n), jn.msg)
 		}
-		dumpN := sn.dump()
+		dumpN := sn.dump(u)
 		// re-run
 		err2 := env.runOp(sn, op2)
 		j2 := env.judge(sn, doctorToo)
@@ -1334,7 +1135,7 @@ func runC13(ctx *Ctx, c *xt.T) (*xt.T, Verdict) {
 				fault = false
 				fail("fault-not-reported", "%s: write %d of %d failed but the operation returned nil", c13OpName(kind), n, L)
 			} else if workers == 1 && kind != 8 {
-				if sf.dump() != dumpN {
+				if sf.dump(u) != dumpN {
 					fault = false
 					fail("fault-state-differs", "%s: after a failed write %d of %d the state is not the state of the first %d writes", c13OpName(kind), n, L, n)
 				}
@@ -1358,7 +1159,7 @@ func runC13(ctx *Ctx, c *xt.T) (*xt.T, Verdict) {
 				crec := &c13Rec{failAt: -1, failFrom: n, from0: n == 0}
 				sc := fresh(nil, crec)
 				env.runOp(sc, op)
-				if sc.dump() != dumpN {
+				if workers == 1 && sc.dump(u) != dumpN {
 					fault = false
 					fail("crash-state-differs", "%s with every write from %d on failing: the state is not the state of the first %d writes", c13OpName(kind), n, n)
 				}
